@@ -280,6 +280,8 @@ def purity(case, ctx):
   for call in range(ncalls):
     with sut('apply'):
       r = mod.apply(variables, x, mutable=mutable)
+      require(mutable == build_filter(filt), lambda: 'apply changed the '
+              f'`mutable` argument of the caller to {mutable!r}')
     require(snap(mod) == s_mod and mod.scope is None,
             f'apply (call {call}) changed the module object')
     require(snap(variables) == s_var, lambda: f'apply (call {call}) changed '
@@ -339,6 +341,8 @@ def purity(case, ctx):
       pass
     with sut('apply after scribble'):
       r = mod.apply(variables, x, mutable=mutable)
+      require(mutable == build_filter(filt), lambda: 'apply changed the '
+              f'`mutable` argument of the caller to {mutable!r}')
     require(out_eq(r[0], y_ref), 'mutating the returned collections changed '
             'a later apply on the original variables')
     require(snap(variables) == s_var, 'returned collections share structure '
@@ -545,6 +549,9 @@ def observation_inert(case, ctx):
          'fn': (lambda m, name: 'A' in type(m).__name__)}[capture]
   with sut('apply'):
     r = mod.apply(base, x, mutable=mutable, capture_intermediates=cap)
+    require(mutable == build_filter(filt) and type(mutable) is type(
+        build_filter(filt)), lambda: f'apply(capture_intermediates={capture}) '
+            f'changed the `mutable` argument of the caller to {mutable!r}')
     r_s = mod_s.apply(base, x, mutable=mutable)
   # capture_intermediates makes 'intermediates' mutable, so r is a tuple even
   # with mutable=False
